@@ -8,7 +8,7 @@
 (*   <<"evalat",x,lo,hi,body>> <<"sum",i,lo,hi,body>> <<"lim",x,l,body,drt>> <<"inf",s>>              *)
 (*   <<"skolem",c,<<deps>>>> <<"diff",b>> <<"symbol",s>> <<"bigconst",..>> <<"oth",text>>             *)
 (*                                                                                                   *)
-(* Ev(e, env, dx) = <<st, v, d>> : st = 0 value v (a Rat) and derivative d with respect to the         *)
+(* Ev(e, env, dx) = [st, v, d]   : st = 0 value v (a Rat) and derivative d with respect to the         *)
 (* variable dx ("" = none) at the point env;  st = 1 undefined at env (zero denominator);             *)
 (* st = 2 NOT EXAMINABLE (outside the fragment, not an integer where one is needed, or a magnitude    *)
 (* beyond Rat's 2^30 guard).  Everything is pointwise:                                               *)
@@ -24,12 +24,6 @@ EXTENDS Rat, Integers, Sequences, FiniteSets, TLC
 Z == <<0, 1>>
 One == <<1, 1>>
 MaxDeg == 9
-Unk == <<2, Z, Z>>
-Und == <<1, Z, Z>>
-Bad(st) == <<st, Z, Z>>
-Mk(v, d) == IF RIsOvf(v) \/ RIsOvf(d) THEN Unk ELSE <<0, v, d>>
-\* the derivative component is only computed when a differentiation variable is given (TLC evaluates operator arguments on demand)
-MkD(dx, v, d) == IF dx = "" THEN (IF RIsOvf(v) THEN Unk ELSE <<0, v, Z>>) ELSE Mk(v, d)
 MaxN(a, b) == IF a >= b THEN a ELSE b
 \* integer fast paths (no gcd) in front of Rat's operations; same results
 QAdd(x, y) == IF x[2] = 1 /\ y[2] = 1 THEN (LET t == x[1] + y[1] IN IF RFits(t) THEN <<t, 1>> ELSE ROvf) ELSE RAdd(x, y)
@@ -139,119 +133,130 @@ BinTab == [k \in 0..MaxDeg |-> BinP(k)] @@ <<>>
 \* forward differences  d[k+1] = Delta^k f(0)  of the samples s[1..n+1] = f(0..n)
 RECURSIVE DiffSeq(_)
 DiffSeq(s) == IF Len(s) <= 1 THEN s
-              ELSE <<s[1]>> \o DiffSeq([i \in 1..(Len(s) - 1) |-> QSub(s[i + 1], s[i])])
+              ELSE <<s[1]>> \o DiffSeq([i \in 1..(Len(s) - 1) |-> QSub(s[i + 1], s[i])] \o <<>>)
 RECURSIVE SumCoef(_, _, _, _)
 SumCoef(d, i, k, n) == IF k > n THEN Z ELSE QAdd(QMul(d[k + 1], BinTab[k][i]), SumCoef(d, i, k + 1, n))
 \* monomial coefficients c[1..n+1] (c[i] is the coefficient of x^(i-1)) of the interpolant of the samples
-Coeffs(s) == LET n == Len(s) - 1  d == DiffSeq(s) IN [i \in 1..(n + 1) |-> SumCoef(d, i, i - 1, n)]
+Coeffs(s) == LET n == Len(s) - 1  d == DiffSeq(s) IN [i \in 1..(n + 1) |-> SumCoef(d, i, i - 1, n)] \o <<>>
 RECURSIVE HornerP(_, _, _)
 HornerP(c, t, i) == IF i > Len(c) THEN Z ELSE QAdd(c[i], QMul(t, HornerP(c, t, i + 1)))
 PolyAt(c, t) == HornerP(c, t, 1)
 \* value at t of the antiderivative (with value 0 at 0)
-AntiAt(c, t) == QMul(t, PolyAt([i \in 1..Len(c) |-> RDiv(c[i], RInt(i))], t))
+AntiAt(c, t) == QMul(t, PolyAt([i \in 1..Len(c) |-> RDiv(c[i], RInt(i))] \o <<>>, t))
 
-Ext(env, x, v) == [y \in (DOMAIN env) \cup {x} |-> IF y = x THEN v ELSE env[y]]
+Ext(env, x, v) == [y \in (DOMAIN env) \cup {x} |-> IF y = x THEN v ELSE env[y]] @@ <<>>
 IsIntQ(q) == ~RIsOvf(q) /\ q[2] = 1
 
 (* ------------------------------------------------------------------------------------------------ *)
+(* Results are RECORDS [st, v, d].  (TLC evaluates the function part of  f[i]  in a mode that keeps function        *)
+(* constructors lazy and uncached - also inside every operator called from there - so the result of a recursive       *)
+(* evaluation must never be taken apart by tuple indexing; record fields are selected in the normal mode.)          *)
+Res(st, v, d) == [st |-> st, v |-> v, d |-> d]
+Unk == Res(2, Z, Z)
+Und == Res(1, Z, Z)
+Bad(st) == Res(st, Z, Z)
+Mk(v, d) == IF RIsOvf(v) \/ RIsOvf(d) THEN Unk ELSE Res(0, v, d)
+\* the derivative component is only computed when a differentiation variable is given (TLC evaluates operator arguments on demand)
+MkD(dx, v, d) == IF dx = "" THEN (IF RIsOvf(v) THEN Unk ELSE Res(0, v, Z)) ELSE Mk(v, d)
+
 RECURSIVE Ev(_, _, _)
-MaxSt(s) == IF \E i \in 1..Len(s) : s[i][1] = 2 THEN 2 ELSE IF \E i \in 1..Len(s) : s[i][1] = 1 THEN 1 ELSE 0
+MaxSt(s) == IF \E i \in 1..Len(s) : s[i].st = 2 THEN 2 ELSE IF \E i \in 1..Len(s) : s[i].st = 1 THEN 1 ELSE 0
 
 EvPow(a, b, e, dx) ==
   IF dx # "" /\ Occ(e[4], dx) THEN Unk
-  ELSE IF ~IsIntQ(b[2]) \/ b[2][1] > 12 \/ b[2][1] < -12 THEN Unk
-  ELSE LET n == b[2][1]  va == a[2] IN
-    IF n = 0 THEN (IF va[1] = 0 THEN Unk ELSE <<0, One, Z>>)            \* 0 ^ 0 : not judged
-    ELSE IF n > 0 THEN MkD(dx, RPow(va, n), QMul(QMul(RInt(n), RPow(va, n - 1)), a[3]))
+  ELSE IF ~IsIntQ(b.v) \/ b.v[1] > 12 \/ b.v[1] < -12 THEN Unk
+  ELSE LET n == b.v[1]  va == a.v IN
+    IF n = 0 THEN (IF va[1] = 0 THEN Unk ELSE Res(0, One, Z))            \* 0 ^ 0 : not judged
+    ELSE IF n > 0 THEN MkD(dx, RPow(va, n), QMul(QMul(RInt(n), RPow(va, n - 1)), a.d))
     ELSE IF va[1] = 0 THEN Und
-    ELSE MkD(dx, RDiv(One, RPow(va, -n)), QMul(RDiv(RInt(n), RPow(va, 1 - n)), a[3]))
+    ELSE MkD(dx, RDiv(One, RPow(va, -n)), QMul(RDiv(RInt(n), RPow(va, 1 - n)), a.d))
 
 EvOp(e, env, dx) ==
   IF e[2] \notin Ariths THEN Unk ELSE
-  LET a == Ev(e[3], env, dx)  b == Ev(e[4], env, dx)  st == MaxSt(<<a, b>>) IN
+  LET a == Ev(e[3], env, dx)  b == Ev(e[4], env, dx)  st == IF a.st >= b.st THEN a.st ELSE b.st IN
   IF st # 0 THEN Bad(st)
-  ELSE CASE e[2] = "+" -> MkD(dx, QAdd(a[2], b[2]), QAdd(a[3], b[3]))
-         [] e[2] = "-" -> MkD(dx, QSub(a[2], b[2]), QSub(a[3], b[3]))
-         [] e[2] = "*" -> MkD(dx, QMul(a[2], b[2]), QAdd(QMul(a[3], b[2]), QMul(a[2], b[3])))
-         [] e[2] = "/" -> IF b[2][1] = 0 THEN Und
-                          ELSE MkD(dx, RDiv(a[2], b[2]), RDiv(QSub(QMul(a[3], b[2]), QMul(a[2], b[3])), QMul(b[2], b[2])))
+  ELSE CASE e[2] = "+" -> MkD(dx, QAdd(a.v, b.v), QAdd(a.d, b.d))
+         [] e[2] = "-" -> MkD(dx, QSub(a.v, b.v), QSub(a.d, b.d))
+         [] e[2] = "*" -> MkD(dx, QMul(a.v, b.v), QAdd(QMul(a.d, b.v), QMul(a.v, b.d)))
+         [] e[2] = "/" -> IF b.v[1] = 0 THEN Und
+                          ELSE MkD(dx, RDiv(a.v, b.v), RDiv(QSub(QMul(a.d, b.v), QMul(a.v, b.d)), QMul(b.v, b.v)))
          [] e[2] = "^" -> EvPow(a, b, e, dx)
 
 EvInt(e, env, dx0) ==
   LET dx == IF dx0 # "" /\ Occ(e, dx0) THEN dx0 ELSE ""
-      x == e[2]  lo == Ev(e[3], env, dx)  hi == Ev(e[4], env, dx)  st == MaxSt(<<lo, hi>>) IN
+      x == e[2]  lo == Ev(e[3], env, dx)  hi == Ev(e[4], env, dx)  st == IF lo.st >= hi.st THEN lo.st ELSE hi.st IN
   IF st # 0 THEN Bad(st) ELSE
   LET D == Deg(e[5], x) IN
   IF D < 0 \/ D > MaxDeg THEN Unk ELSE
   LET dxi == IF dx = x THEN "" ELSE dx
-      smp == [i \in 1..(D + 1) |-> Ev(e[5], Ext(env, x, RInt(i - 1)), dxi)]
+      smp == [i \in 1..(D + 1) |-> Ev(e[5], Ext(env, x, RInt(i - 1)), dxi)] \o <<>>
       st2 == MaxSt(smp) IN
   IF st2 # 0 THEN Bad(st2) ELSE
-  LET c == Coeffs([i \in 1..(D + 1) |-> smp[i][2]])
-      val == QSub(AntiAt(c, hi[2]), AntiAt(c, lo[2])) IN
+  LET c == Coeffs([i \in 1..(D + 1) |-> smp[i].v] \o <<>>)
+      val == QSub(AntiAt(c, hi.v), AntiAt(c, lo.v)) IN
   IF dx = "" THEN Mk(val, Z) ELSE
-  LET cd == Coeffs([i \in 1..(D + 1) |-> smp[i][3]])        \* Leibniz rule
-      dv == QAdd(QSub(AntiAt(cd, hi[2]), AntiAt(cd, lo[2])),
-                 QSub(QMul(PolyAt(c, hi[2]), hi[3]), QMul(PolyAt(c, lo[2]), lo[3]))) IN
+  LET cd == Coeffs([i \in 1..(D + 1) |-> smp[i].d] \o <<>>)        \* Leibniz rule
+      dv == QAdd(QSub(AntiAt(cd, hi.v), AntiAt(cd, lo.v)),
+                 QSub(QMul(PolyAt(c, hi.v), hi.d), QMul(PolyAt(c, lo.v), lo.d))) IN
   Mk(val, dv)
 
 EvEvalAt(e, env, dx0) ==
   LET dx == IF dx0 # "" /\ Occ(e, dx0) THEN dx0 ELSE ""
-      x == e[2]  lo == Ev(e[3], env, dx)  hi == Ev(e[4], env, dx)  st == MaxSt(<<lo, hi>>) IN
+      x == e[2]  lo == Ev(e[3], env, dx)  hi == Ev(e[4], env, dx)  st == IF lo.st >= hi.st THEN lo.st ELSE hi.st IN
   IF st # 0 THEN Bad(st) ELSE
   LET dxi == IF dx = x THEN "" ELSE dx
-      f1 == Ev(e[5], Ext(env, x, hi[2]), dxi)
-      f0 == Ev(e[5], Ext(env, x, lo[2]), dxi)
-      st2 == MaxSt(<<f1, f0>>) IN
+      f1 == Ev(e[5], Ext(env, x, hi.v), dxi)
+      f0 == Ev(e[5], Ext(env, x, lo.v), dxi)
+      st2 == IF f1.st >= f0.st THEN f1.st ELSE f0.st IN
   IF st2 # 0 THEN Bad(st2) ELSE
-  IF dx = "" THEN Mk(QSub(f1[2], f0[2]), Z) ELSE
+  IF dx = "" THEN Mk(QSub(f1.v, f0.v), Z) ELSE
   \* chain rule through the bounds
-  LET t1 == IF hi[3][1] = 0 THEN <<0, Z, Z>> ELSE Ev(e[5], Ext(env, x, hi[2]), x)
-      t0 == IF lo[3][1] = 0 THEN <<0, Z, Z>> ELSE Ev(e[5], Ext(env, x, lo[2]), x)
-      st3 == MaxSt(<<t1, t0>>) IN
+  LET t1 == IF hi.d = Z THEN Res(0, Z, Z) ELSE Ev(e[5], Ext(env, x, hi.v), x)
+      t0 == IF lo.d = Z THEN Res(0, Z, Z) ELSE Ev(e[5], Ext(env, x, lo.v), x)
+      st3 == IF t1.st >= t0.st THEN t1.st ELSE t0.st IN
   IF st3 # 0 THEN Bad(st3) ELSE
-  Mk(QSub(f1[2], f0[2]), QSub(QAdd(f1[3], QMul(t1[3], hi[3])), QAdd(f0[3], QMul(t0[3], lo[3]))))
+  Mk(QSub(f1.v, f0.v), QSub(QAdd(f1.d, QMul(t1.d, hi.d)), QAdd(f0.d, QMul(t0.d, lo.d))))
 
 RECURSIVE SumFrom(_, _, _, _, _, _)
 SumFrom(body, env, i, n, hi, dxi) ==
-  IF n > hi THEN <<0, Z, Z>>
+  IF n > hi THEN Res(0, Z, Z)
   ELSE LET t == Ev(body, Ext(env, i, RInt(n)), dxi) IN
-       IF t[1] # 0 THEN Bad(t[1])
+       IF t.st # 0 THEN Bad(t.st)
        ELSE LET r == SumFrom(body, env, i, n + 1, hi, dxi) IN
-            IF r[1] # 0 THEN Bad(r[1]) ELSE MkD(dxi, QAdd(t[2], r[2]), QAdd(t[3], r[3]))
+            IF r.st # 0 THEN Bad(r.st) ELSE MkD(dxi, QAdd(t.v, r.v), QAdd(t.d, r.d))
 EvSum(e, env, dx) ==
-  LET i == e[2]  lo == Ev(e[3], env, "")  hi == Ev(e[4], env, "")  st == MaxSt(<<lo, hi>>) IN
+  LET i == e[2]  lo == Ev(e[3], env, "")  hi == Ev(e[4], env, "")  st == IF lo.st >= hi.st THEN lo.st ELSE hi.st IN
   IF st # 0 THEN Bad(st)
   ELSE IF dx # "" /\ (Occ(e[3], dx) \/ Occ(e[4], dx)) THEN Unk
-  ELSE IF ~IsIntQ(lo[2]) \/ ~IsIntQ(hi[2]) THEN Unk
-  ELSE IF hi[2][1] < lo[2][1] \/ hi[2][1] - lo[2][1] > 12 THEN Unk          \* empty or long sums : not judged
-  ELSE SumFrom(e[5], env, i, lo[2][1], hi[2][1], IF dx = i THEN "" ELSE dx)
+  ELSE IF ~IsIntQ(lo.v) \/ ~IsIntQ(hi.v) THEN Unk
+  ELSE IF hi.v[1] < lo.v[1] \/ hi.v[1] - lo.v[1] > 12 THEN Unk          \* empty or long sums : not judged
+  ELSE SumFrom(e[5], env, i, lo.v[1], hi.v[1], IF dx = i THEN "" ELSE dx)
 
 EvIInt(e, env, dx) ==           \* the antiderivative that vanishes at 0, as a function of x
   LET x == e[2] IN
   IF (dx # "" /\ Occ(e, dx)) \/ x \notin DOMAIN env THEN Unk ELSE
   LET D == Deg(e[3], x) IN
   IF D < 0 \/ D > MaxDeg THEN Unk ELSE
-  LET smp == [i \in 1..(D + 1) |-> Ev(e[3], Ext(env, x, RInt(i - 1)), "")]
+  LET smp == [i \in 1..(D + 1) |-> Ev(e[3], Ext(env, x, RInt(i - 1)), "")] \o <<>>
       st == MaxSt(smp) IN
-  IF st # 0 THEN Bad(st) ELSE Mk(AntiAt(Coeffs([i \in 1..(D + 1) |-> smp[i][2]]), env[x]), Z)
+  IF st # 0 THEN Bad(st) ELSE Mk(AntiAt(Coeffs([i \in 1..(D + 1) |-> smp[i].v] \o <<>>), env[x]), Z)
 
 Ev(e, env, dx) ==
   CASE e[1] = "op" -> EvOp(e, env, dx)
-    [] e[1] = "const" -> IF e[3] > 0 THEN <<0, IF e[3] = 1 THEN <<e[2], 1>> ELSE RNorm(e[2], e[3]), Z>> ELSE Unk
-    [] e[1] = "var" -> IF e[2] \in DOMAIN env THEN <<0, env[e[2]], IF e[2] = dx THEN One ELSE Z>> ELSE Unk
-    [] e[1] = "neg" -> LET a == Ev(e[2], env, dx) IN IF a[1] # 0 THEN a ELSE <<0, RNeg(a[2]), IF dx = "" THEN Z ELSE RNeg(a[3])>>
+    [] e[1] = "const" -> IF e[3] > 0 THEN Res(0, IF e[3] = 1 THEN <<e[2], 1>> ELSE RNorm(e[2], e[3]), Z) ELSE Unk
+    [] e[1] = "var" -> IF e[2] \in DOMAIN env THEN Res(0, env[e[2]], IF e[2] = dx THEN One ELSE Z) ELSE Unk
+    [] e[1] = "neg" -> LET a == Ev(e[2], env, dx) IN IF a.st # 0 THEN a ELSE Res(0, RNeg(a.v), IF dx = "" THEN Z ELSE RNeg(a.d))
     [] e[1] = "int" -> EvInt(e, env, dx)
     [] e[1] = "evalat" -> EvEvalAt(e, env, dx)
     [] e[1] = "sum" -> EvSum(e, env, dx)
     [] e[1] = "deriv" -> IF dx # "" /\ Occ(e, dx) THEN Unk              \* second derivatives are not examined
-                         ELSE LET a == Ev(e[3], env, e[2]) IN IF a[1] # 0 THEN a ELSE <<0, a[3], Z>>
+                         ELSE LET a == Ev(e[3], env, e[2]) IN IF a.st # 0 THEN a ELSE Res(0, a.d, Z)
     [] e[1] = "iint" -> EvIInt(e, env, dx)
-    [] e[1] = "skolem" -> <<0, Z, Z>>              \* an arbitrary constant; only used in the "up to a constant" comparison
+    [] e[1] = "skolem" -> Res(0, Z, Z)             \* an arbitrary constant; only used in the "up to a constant" comparison
     [] e[1] = "fun" -> IF e[2] = "abs" /\ Len(e[3]) = 1
                        THEN LET a == Ev(e[3][1], env, dx) IN
-                            IF a[1] # 0 THEN a ELSE IF dx # "" /\ a[2][1] = 0 THEN Unk
-                            ELSE IF a[2][1] >= 0 THEN a ELSE <<0, RNeg(a[2]), RNeg(a[3])>>
+                            IF a.st # 0 THEN a ELSE IF dx # "" /\ a.v[1] = 0 THEN Unk
+                            ELSE IF a.v[1] >= 0 THEN a ELSE Res(0, RNeg(a.v), RNeg(a.d))
                        ELSE Unk
     [] OTHER -> Unk
 
@@ -262,8 +267,8 @@ Val(e, env) == Ev(e, env, "")
 CondHolds(c, env) ==
   IF c[1] # "op" \/ c[2] \notin Cmps THEN FALSE ELSE
   LET a == Val(c[3], env)  b == Val(c[4], env) IN
-  IF a[1] # 0 \/ b[1] # 0 THEN FALSE ELSE
-  LET k == RCmp(a[2], b[2]) IN
+  IF a.st # 0 \/ b.st # 0 THEN FALSE ELSE
+  LET k == RCmp(a.v, b.v) IN
   CASE c[2] = "=" -> k = 0 [] c[2] = "!=" -> k \in {-1, 1} [] c[2] = "<" -> k = -1
     [] c[2] = "<=" -> k \in {-1, 0} [] c[2] = ">" -> k = 1 [] c[2] = ">=" -> k \in {0, 1}
 
@@ -273,7 +278,7 @@ Grid(n) == CASE n <= 1 -> {<<-1, 1>>, <<0, 1>>, <<1, 2>>, <<2, 1>>}
              [] OTHER -> {<<2, 1>>, <<3, 1>>}
 MaxVars == 5
 
-(* SameValue(e, r, conds) = <<fails, compared>> :  compared = the two expressions could be evaluated  *)
+(* SameValue(e, r, conds) = [fails, cmp] :  cmp (compared) = the two expressions could be evaluated  *)
 (* at one admissible grid point at least;  fails = at some admissible point both are defined and the   *)
 (* values differ.  With an indefinite integral or a Skolem constant on either side the claim is        *)
 (* "equal up to an additive constant": for every assignment of the other variables the difference is  *)
@@ -281,21 +286,23 @@ MaxVars == 5
 SameValue(e, r, conds) ==
   LET vs == FV(e) \cup FV(r) \cup FVSeq(conds)
       iv == IVars(e) \cup IVars(r)
-      upto == iv # {} \/ HasKind(e, "skolem") \/ HasKind(r, "skolem") IN
-  IF Cardinality(vs) > MaxVars \/ (upto /\ Cardinality(iv) # 1) THEN <<FALSE, FALSE>> ELSE
+      upto == iv # {} \/ HasKind(e, "skolem") \/ HasKind(r, "skolem")
+      No == [fails |-> FALSE, cmp |-> FALSE] IN
+  IF Cardinality(vs) > MaxVars \/ (upto /\ Cardinality(iv) # 1) THEN No ELSE
   LET pts == [vs -> Grid(Cardinality(vs))]
       adm == {env \in pts : \A i \in 1..Len(conds) : CondHolds(conds[i], env)}
-      \* <<both defined, difference>> at one point
+      \* [both defined, difference] at one point
       Diff(env) == LET a == Val(e, env)  b == Val(r, env) IN
-                   IF a[1] # 0 \/ b[1] # 0 THEN <<FALSE, Z>> ELSE LET d == QSub(a[2], b[2]) IN IF RIsOvf(d) THEN <<FALSE, Z>> ELSE <<TRUE, d>> IN
+                   IF a.st # 0 \/ b.st # 0 THEN [ok |-> FALSE, d |-> Z]
+                   ELSE LET d == QSub(a.v, b.v) IN IF RIsOvf(d) THEN [ok |-> FALSE, d |-> Z] ELSE [ok |-> TRUE, d |-> d] IN
   IF ~upto THEN LET codes == {Diff(env) : env \in adm} IN              \* every point is evaluated once
-                << \E c \in codes : c[1] /\ c[2] # Z, \E c \in codes : c[1] >>
+                [fails |-> \E c \in codes : c.ok /\ c.d # Z, cmp |-> \E c \in codes : c.ok]
   ELSE LET x == CHOOSE y \in iv : TRUE IN
-       IF x \notin vs \/ \E i \in 1..Len(conds) : x \in FV(conds[i]) THEN <<FALSE, FALSE>>
-       ELSE LET res == {<<[y \in vs \ {x} |-> env[y]], env[x], Diff(env)>> : env \in adm}
-                cmp == {t \in res : t[3][1]} IN
-            << \E p \in cmp : \E q \in cmp : p[1] = q[1] /\ p[3][2] # q[3][2],
-               \E p \in cmp : \E q \in cmp : p[1] = q[1] /\ p[2] # q[2] >>
+       IF x \notin vs \/ \E i \in 1..Len(conds) : x \in FV(conds[i]) THEN No
+       ELSE LET res == {[o |-> [y \in vs \ {x} |-> env[y]], x |-> env[x], r |-> Diff(env)] : env \in adm}
+                cmp == {t \in res : t.r.ok} IN
+            [fails |-> \E p \in cmp : \E q \in cmp : p.o = q.o /\ p.r.d # q.r.d,
+             cmp |-> \E p \in cmp : \E q \in cmp : p.o = q.o /\ p.x # q.x]
 
 (* ------------------------------------------------------------------------------------------------ *)
 (* Canonical form of numerals for the print / parse comparison: the parser reads  -3  as the constant  *)
